@@ -258,6 +258,18 @@ func (c *compiler) identity(y *Identity) error {
 	return nil
 }
 
+// what a leaf or typedef does not state itself comes from the typedef it is derived from
+func inheritFromTypedef(parent Leafable, tdef *Typedef) {
+	if !parent.HasDefault() {
+		if tdef.HasDefault() {
+			parent.setDefaultValue(tdef.DefaultValue())
+		}
+	}
+	if parent.Units() == "" {
+		parent.setUnits(tdef.Units())
+	}
+}
+
 func (c *compiler) compileType(y *Type, parent Leafable, isUnion bool) error {
 	if y == nil {
 		return errors.New("no type set on " + SchemaPath(parent))
@@ -265,6 +277,15 @@ func (c *compiler) compileType(y *Type, parent Leafable, isUnion bool) error {
 	if int(y.format) != 0 {
 		if _, isList := parent.(*LeafList); isList && !y.format.IsList() {
 			y.format = y.format.List()
+		}
+		// the type is compiled already, it is shared by every copy of the leaf that a
+		// uses of its grouping makes. Each copy takes default and units on its own.
+		if _, builtinType := val.TypeAsFormat(y.ident); !builtinType && !isUnion {
+			tdef, err := c.findTypedef(y, parent, y.ident)
+			if err != nil {
+				return err
+			}
+			inheritFromTypedef(parent, tdef)
 		}
 		return nil
 	}
@@ -281,14 +302,7 @@ func (c *compiler) compileType(y *Type, parent Leafable, isUnion bool) error {
 		tdef.dtype.mixin(y)
 
 		if !isUnion {
-			if !parent.HasDefault() {
-				if tdef.HasDefault() {
-					parent.setDefaultValue(tdef.DefaultValue())
-				}
-			}
-			if parent.Units() == "" {
-				parent.setUnits(tdef.Units())
-			}
+			inheritFromTypedef(parent, tdef)
 		}
 	}
 
